@@ -179,6 +179,15 @@ CHECKS["C03"] = ("exploration",
     "schedules.",
     "DESIGN.md §3 C03")
 
+CHECKS["C04"] = ("exploration",
+    "runtime differential monitors: batch vs single rows / random subsets / permutation / repeated call for every "
+    "row-wise method, fitted-state fingerprints before/after every call, pickle and clone_with_fitted_parameters "
+    "round trips; the documented balanced-prediction exception is monitored and recorded; deep copies of the "
+    "compiled criteria run under ASan",
+    "22 fitted classes x configurations x two training sets x label sets, queried on batches with training rows, "
+    "perturbed rows, far rows (unseen buckets / cells / leaves), exact duplicates and single rows.",
+    "DESIGN.md §3 C04")
+
 PENDING = {}
 
 
